@@ -637,6 +637,60 @@ theorem x_write_within_batch (P : Plane W) (Q : Preds W) (L : Laws P Q) (E : Upg
       · exact absurd hp hnp
   · rfl
 
+/-- **C09 `x_panics_only_in_plane`** — the executor itself never crashes (no indexing, no dereference of its own: `isPlanUnhealthy`
+    restarts a release whose cursor left the plan before anything indexes it): if a reconcile over the plane `P` crashes, then one of
+    the plane's five calls crashed — on the release as the executor holds it and the world as observed. -/
+theorem x_panics_only_in_plane (P : Plane W) (br : BR) (w : W) (h : reconcileX P br w = .panic) :
+    (∃ ns, P.syncInfo (withFinalizer br) ns w = .panic) ∨ (∃ ns, P.init (withFinalizer br) ns w = .panic) ∨
+    (∃ ns, P.upgrade (withFinalizer br) ns w = .panic) ∨ (∃ ns, P.ensure (withFinalizer br) ns w = .panic) ∨
+    P.fin (withFinalizer br) w = .panic := by
+  unfold reconcileX at h
+  split at h
+  · cases h
+  · unfold reconcileBodyX at h
+    split at h
+    · rename_i hs
+      left
+      unfold syncStatusX at hs
+      split at hs
+      · rename_i hp; exact ⟨_, hp⟩
+      · cases hs
+    · rename_i s hs
+      split at h
+      · cases h
+      · split at h
+        · rename_i hex
+          right
+          unfold executeX at hex
+          dsimp only at hex
+          split at hex
+          · unfold execPreparingX at hex
+            split at hex
+            · rename_i hp; left; exact ⟨_, hp⟩
+            · split at hex <;> cases hex
+          · unfold execProgressingX at hex
+            dsimp only at hex
+            split at hex
+            · split at hex
+              · rename_i hp; right; left; exact ⟨_, hp⟩
+              · cases hex
+              · cases hex
+            · split at hex
+              · rename_i hp; right; right; left; exact ⟨_, hp⟩
+              · cases hex
+              · cases hex
+            · split at hex
+              · rename_i hp; right; right; left; exact ⟨_, hp⟩
+              · cases hex
+              · split at hex <;> cases hex
+            · cases hex
+          · unfold execFinalizingX at hex
+            split at hex
+            · rename_i hp; right; right; right; exact hp
+            · split at hex <;> cases hex
+          · cases hex
+        · cases h
+
 /-! ## `getReleaseController` -/
 
 /-- **`x_dispatch`** — which plane serves which workload reference and rolling style (`getReleaseController`, all cases):
